@@ -135,19 +135,27 @@ def to_harness(rows, start_id, attempts):
 # --------------------------------------------------------------------------- harness
 
 def run_harness(ck, scenarios, label, nshards):
-    spath = os.path.join(ck.dir, f"scenarios_{label}.ndjson")
+    # files are written under a per-process name (two runs of this check may share the output directory) and
+    # moved to the plain name afterwards, where the last run's recordings stay for inspection
+    mine = f"{label}.{os.getpid()}"
+    spath = os.path.join(ck.dir, f"scenarios_{mine}.ndjson")
     vlib.write_ndjson(spath, scenarios)
-    outs = [os.path.join(ck.dir, f"trace_{label}_{i}.ndjson") for i in range(nshards)]
+    outs = [os.path.join(ck.dir, f"trace_{mine}_{i}.ndjson") for i in range(nshards)]
 
     def one(i):
         p = vlib.run_bin("life", ["run", spath, outs[i], f"{i}/{nshards}"], timeout=7200)
         if p.returncode != 0:
             raise vlib.ToolError(f"life shard {i} failed rc={p.returncode}: {p.stderr[-1500:]}")
-    with ThreadPoolExecutor(max_workers=nshards) as ex:
-        list(ex.map(one, range(nshards)))
-    runs = []
-    for o in outs:
-        runs += lc.split_scenarios(o)
+    try:
+        with ThreadPoolExecutor(max_workers=nshards) as ex:
+            list(ex.map(one, range(nshards)))
+        runs = []
+        for o in outs:
+            runs += lc.split_scenarios(o)
+    finally:
+        for o in outs + [spath]:
+            if os.path.exists(o):
+                os.replace(o, o.replace(f".{os.getpid()}", ""))
     runs.sort(key=lambda evs: evs[0]["scenario"]["id"])
     return runs
 
@@ -294,6 +302,7 @@ def design_checks(ck, pl, results):
 
 
 def run(tier):
+    lc.exclusive(vlib, PID)
     ck = vlib.Check(PID, tier)
     # TLC work directories of this check live under out/C17 (the shared out/tlc is cleaned by other runs)
     vlib.OUT = ck.dir
@@ -492,6 +501,7 @@ def confirm(ck, sc, rule, mode, dc, other=False):
 
 
 def replay(path):
+    lc.exclusive(vlib, PID)
     ck = vlib.Check(PID, "quick")
     vlib.build_harness(["life"])
     with open(path) as f:
@@ -517,6 +527,7 @@ def selftest():
     """Negative controls on the model and the binding:
     (i) each deviation switched on makes TLC report the property it breaks;
     (ii) a recorded good trace with one corrupted field / one dropped hook event is flagged or rejected."""
+    lc.exclusive(vlib, PID + "-selftest")
     ck = vlib.Check(PID + "-selftest", "quick")
     vlib.OUT = ck.dir
     expect = {"OverwriteClosed": "TerminalIsStable", "LoopsDoneSilent": "ReportsTerminal",
